@@ -665,6 +665,16 @@ func doesNotRetain(w *World, fn *ssa.Function, idx int, depth int) (bool, string
 					return false, t.Name() + ": " + why
 				}
 			}
+		case *ssa.Store:
+			// the buffer put into a freshly made list of chunks that is only ranged over / handed to a chunk writer
+			if ia, ok := x.Addr.(*ssa.IndexAddr); ok && x.Val == ssa.Value(p) {
+				if ok2, why := chunkListNotRetained(w, ia.X, depth+1); ok2 {
+					continue
+				} else {
+					return false, fn.Name() + ": buffer stored in a list: " + why
+				}
+			}
+			return false, fmt.Sprintf("%s: the buffer is used by %T (%s)", fn.Name(), rf, rf.String())
 		default:
 			return false, fmt.Sprintf("%s: the buffer is used by %T (%s)", fn.Name(), rf, rf.String())
 		}
@@ -672,14 +682,139 @@ func doesNotRetain(w *World, fn *ssa.Function, idx int, depth int) (bool, string
 	return true, "only measured and written"
 }
 
-// byteSeq renders the bytes written by one Write call argument (append(...) of constants / conversions).
+// chunkListNotRetained: v is a list of byte slices (a fresh array, a slice of it, or a slice parameter) whose elements
+// are only stored at construction, measured, and handed to writers that do not retain them.
+func chunkListNotRetained(w *World, v ssa.Value, depth int) (bool, string) {
+	if depth > 8 {
+		return false, "too deep"
+	}
+	switch v.(type) {
+	case *ssa.Alloc, *ssa.Slice, *ssa.Parameter:
+	default:
+		return false, fmt.Sprintf("list held in %T", v)
+	}
+	refs := v.Referrers()
+	if refs == nil {
+		return true, ""
+	}
+	for _, rf := range *refs {
+		switch x := rf.(type) {
+		case *ssa.DebugRef:
+		case *ssa.Slice:
+			if ok, why := chunkListNotRetained(w, x, depth+1); !ok {
+				return false, why
+			}
+		case *ssa.IndexAddr:
+			if x.Referrers() == nil {
+				continue
+			}
+			for _, u := range *x.Referrers() {
+				switch y := u.(type) {
+				case *ssa.Store:
+					if y.Addr != ssa.Value(x) {
+						return false, "address of an element stored"
+					}
+				case *ssa.UnOp:
+					// an element read out: only written / measured
+					if y.Referrers() == nil {
+						continue
+					}
+					for _, eu := range *y.Referrers() {
+						switch z := eu.(type) {
+						case *ssa.DebugRef:
+						case *ssa.Call:
+							if bi, ok := z.Call.Value.(*ssa.Builtin); ok && (bi.Name() == "len" || bi.Name() == "cap") {
+								continue
+							}
+							if z.Call.IsInvoke() && z.Call.Method.Name() == "Write" {
+								for f := range w.AllFuncs {
+									if f.Name() == "Write" && f.Signature.Recv() != nil && w.IsRepoFunc(f) && len(f.Blocks) > 0 && f.Synthetic == "" {
+										if ok, why := doesNotRetain(w, f, 1, depth+1); !ok {
+											return false, f.Name() + ": " + why
+										}
+									}
+								}
+								continue
+							}
+							return false, "element passed to " + calleeNameCI(z)
+						default:
+							return false, fmt.Sprintf("element used by %T", eu)
+						}
+					}
+				case *ssa.DebugRef:
+				default:
+					return false, fmt.Sprintf("element address used by %T", u)
+				}
+			}
+		case *ssa.Call:
+			if bi, ok := x.Call.Value.(*ssa.Builtin); ok && (bi.Name() == "len" || bi.Name() == "cap") {
+				continue
+			}
+			callee := x.Call.StaticCallee()
+			if callee == nil || !w.IsRepoFunc(callee) || len(callee.Blocks) == 0 {
+				return false, "list passed to " + calleeNameCI(x)
+			}
+			for i, a := range x.Call.Args {
+				if a == v && i < len(callee.Params) {
+					if ok, why := chunkListNotRetained(w, callee.Params[i], depth+1); !ok {
+						return false, callee.Name() + ": " + why
+					}
+				}
+			}
+		default:
+			return false, fmt.Sprintf("list used by %T", rf)
+		}
+	}
+	return true, ""
+}
+
+// writeArgs: the sequence of byte slices fn hands to Write, in order. A Write inside a full range loop over a literal
+// list of chunks (or over a variadic / slice parameter that the caller fills with a literal list) counts as one write
+// per chunk, in list order; same-package helpers that are handed such a list are followed with their parameters bound.
 func writeArgs(e *termEnv, fn *ssa.Function) []string {
+	return writeArgsDepth(e, fn, 0)
+}
+
+func writeArgsDepth(e *termEnv, fn *ssa.Function, depth int) []string {
 	var out []string
 	for _, b := range fn.Blocks {
 		for _, in := range b.Instrs {
-			if c, ok := in.(*ssa.Call); ok && c.Call.IsInvoke() && c.Call.Method.Name() == "Write" {
-				out = append(out, e.termOf(c.Call.Args[0]).String())
+			c, ok := in.(*ssa.Call)
+			if !ok {
+				continue
 			}
+			if c.Call.IsInvoke() && c.Call.Method.Name() == "Write" {
+				t := e.termOf(c.Call.Args[0])
+				if t.Op == "index" && len(t.Args) == 2 && t.Args[0].Op == "list" && t.Args[1].Op == "rangeidx" && t.Args[1].Args[0].String() == t.Args[0].String() {
+					for _, el := range t.Args[0].Args {
+						out = append(out, el.String())
+					}
+					continue
+				}
+				out = append(out, t.String())
+				continue
+			}
+			// a helper of the same package that is handed a literal list of chunks
+			h := c.Call.StaticCallee()
+			if h == nil || depth > 1 || h.Pkg != fn.Pkg || len(h.Blocks) == 0 {
+				continue
+			}
+			hasList := false
+			for _, a := range c.Call.Args {
+				if e.termOf(a).Op == "list" {
+					hasList = true
+				}
+			}
+			if !hasList {
+				continue
+			}
+			ce := e.child()
+			for pi, p := range h.Params {
+				if pi < len(c.Call.Args) {
+					ce.bind[p] = e.termOf(c.Call.Args[pi])
+				}
+			}
+			out = append(out, writeArgsDepth(ce, h, depth+1)...)
 		}
 	}
 	return out
@@ -742,6 +877,13 @@ func writesCheckedInOrder(fn *ssa.Function) bool {
 		}
 	}
 	for i, c := range calls {
+		if inLoop(c.Block()) {
+			// one Write per chunk of a list: its error must end the loop (the block tests it)
+			if _, ok := c.Block().Instrs[len(c.Block().Instrs)-1].(*ssa.If); !ok {
+				return false
+			}
+			continue
+		}
 		if i == len(calls)-1 {
 			continue
 		}
@@ -752,7 +894,35 @@ func writesCheckedInOrder(fn *ssa.Function) bool {
 			return false
 		}
 	}
-	return len(calls) > 0
+	if len(calls) == 0 {
+		// all writes made by a chunk-writing helper of the same package: it must check them, and its error be returned
+		n := 0
+		for _, b := range fn.Blocks {
+			for _, in := range b.Instrs {
+				if c, ok := in.(*ssa.Call); ok {
+					h := c.Call.StaticCallee()
+					if h != nil && h != fn && h.Pkg == fn.Pkg && len(h.Blocks) > 0 {
+						hasWrite := false
+						for _, hb := range h.Blocks {
+							for _, hin := range hb.Instrs {
+								if hc, ok := hin.(*ssa.Call); ok && hc.Call.IsInvoke() && hc.Call.Method.Name() == "Write" {
+									hasWrite = true
+								}
+							}
+						}
+						if hasWrite {
+							n++
+							if !writesCheckedInOrder(h) || !returnsErrorOf(fn, h) {
+								return false
+							}
+						}
+					}
+				}
+			}
+		}
+		return n > 0
+	}
+	return true
 }
 
 func checkHeaderSection(w *World, r *Report) {
